@@ -247,7 +247,10 @@ void MEDDLY::copy_MT::_compute(int L, unsigned in,
     //
     // Determine level information
     //
-    const int Alevel = L>0 && can_use_relation_nodes
+    // Relation nodes start at an unprimed level; when we are
+    // called at a primed level, copy node by node instead.
+    const bool use_relation_nodes = L>0 && can_use_relation_nodes;
+    const int Alevel = use_relation_nodes
         ? MXD_levels::unprimedOfLevel(argF->getNodeLevel(A))
         : argF->getNodeLevel(A);
 
@@ -287,7 +290,7 @@ void MEDDLY::copy_MT::_compute(int L, unsigned in,
         //
 
         unpacked_node* Cu = nullptr;
-        if (can_use_relation_nodes) {
+        if (use_relation_nodes) {
             //
             // Use relation nodes for relations, so we can copy
             // any implicit representation to MxDs
